@@ -9,7 +9,8 @@ import tempfile
 from . import tla
 from .engine import Report
 
-RENDERINGS = [{"a": "lin", "b": "ux"}, {"a": "x86", "b": "_64"}, {"a": "a", "b": "b"}]
+# the last rendering makes version-looking literals ("3.9", "3.9.0", "3.9.0.0"): string atoms compare as TEXT, never as versions
+RENDERINGS = [{"a": "lin", "b": "ux"}, {"a": "x86", "b": "_64"}, {"a": "a", "b": "b"}, {"a": "3.9", "b": ".0"}]
 
 
 def _txt(seq, ren):
